@@ -87,6 +87,14 @@ func (c *Config) overlayFiles() (map[string]string, error) {
 	if err := add(c.harnessDir(), filepath.Join(c.Repo, "zzvrf", "h_"+strings.ToLower(c.Prop))); err != nil {
 		return nil, err
 	}
+	// every other harness package is available too (meta-checks reuse their scenarios)
+	if ents, err := os.ReadDir(filepath.Join(c.Verif, "harness")); err == nil {
+		for _, e := range ents {
+			if e.IsDir() && strings.HasPrefix(e.Name(), "h_") && e.Name() != "h_"+strings.ToLower(c.Prop) {
+				add(filepath.Join(c.Verif, "harness", e.Name()), filepath.Join(c.Repo, "zzvrf", e.Name()))
+			}
+		}
+	}
 	if c.Prop == "C17" {
 		// governance-gated handlers are enumerated from /repo's current source and their harnesses generated
 		if c.genDir == "" {
